@@ -64,7 +64,7 @@ class Prop:
             sc["pool"] = [ctx.new_source("cold", prefix="p", maxn=1, positive_first=True) for _ in range(2)]
         sc["sources"] = ctx.sources
         off = rng.choice([None, None, None, 37, 123, 411])
-        if off and "abs" not in form:
+        if off:
             sc["sub2_t"] = 205 + off
         return sc
 
@@ -101,6 +101,8 @@ class Prop:
         def model(eng, sc):
             f = sc["form"] if sc["form"] != "boundary_twin" else sc["op"]
             d, sid = float(sc["d"]), sc["src"]
+            if f.endswith("_abs") or f.endswith("_abs_other"):
+                d = max(0.0, sc["sub_t"] + d - eng.now)  # an absolute due time: what is left of it at this subscription
             other = sc.get("other")
             if f in ("take_with_time", "take_until_with_time", "take_until_with_time_abs"):
                 return tm.m_take_with_time(eng, sid, d)
